@@ -9,7 +9,7 @@
    produce errors, not crashes.  Proved here for the model formatter fmt = print ∘ norm ∘ parse;
    for format.Source it is checked on generated programs only (hence "partial"). *)
 From Coq Require Import List String Bool.
-From GZ Require Import C20.Model C20.Proofs.
+From GZ Require Import C20.Model C20.Proofs C20.Check C20.ProofsCheck C20.Scanner C20.ScannerProofs.
 Import ListNotations.
 Open Scope string_scope.
 Open Scope list_scope.
@@ -61,6 +61,78 @@ Proof.
 Qed.
 Print Assumptions model_formatter_preserves_ast_without_empties.
 
+(* ---- the per-program check (Check.v) is tied to these statements, not an oracle ---- *)
+
+(* A generated program on which [agrees] and [prop_ok] evaluate to true satisfies the property in
+   terms of the model: the Go parser's description [a] is well formed and is what the model parser
+   reads off the Go scanner's tokens; the tokens of format.Source's output are those of the model
+   formatter (kind and text), and the model parser reads [norm a] off them; format.Source is
+   idempotent on it and format.File does the same as format.Source. *)
+Theorem checked_case_satisfies_property : forall c a,
+  agrees c = true -> prop_ok c = true -> c_scan_ok c = true -> c_ast c = Some a ->
+  wf a = true /\ parse (c_toks c) = Some a /\
+  fmt (c_toks c) = Some (print (norm a)) /\
+  map strip (c_ftoks c) = map strip (print (norm a)) /\
+  parse (c_ftoks c) = Some (norm a) /\
+  c_idem c = true /\ c_file_ok c = true.
+Proof. exact case_sound. Qed.
+Print Assumptions checked_case_satisfies_property.
+
+(* the boolean comparison of descriptions used by the check decides equality *)
+Theorem description_equality_is_decided : forall a b, api_eqb a b = true -> a = b.
+Proof. exact api_eqb_eq. Qed.
+Print Assumptions description_equality_is_decided.
+
+(* the layout comparison implies the comparison of kinds and texts ... *)
+Theorem layout_check_implies_same_tokens : forall cpos f m,
+  layout_ok cpos f m = true -> map strip f = map strip m.
+Proof. intros cpos f m H. apply toks_eqb_eq. eapply layout_ok_toks. exact H. Qed.
+Print Assumptions layout_check_implies_same_tokens.
+
+(* ... accepts the canonical text itself ... *)
+Theorem layout_check_accepts_canonical_text : forall cpos ts, layout_ok cpos ts ts = true.
+Proof. exact layout_ok_refl. Qed.
+Print Assumptions layout_check_accepts_canonical_text.
+
+(* ... and, when the formatted text has no comments and the canonical text none of the two
+   documented free breaks, forces exactly the canonical line structure (so the line-sensitive
+   decision of the grammar, embedded vs named field, is covered by the comparison itself) *)
+Theorem layout_check_is_exact_without_comments : forall f m i prev,
+  layout_from i prev [] f m = true -> no_free_break prev m = true -> map tnl f = map tnl m.
+Proof. exact layout_exact. Qed.
+Print Assumptions layout_check_is_exact_without_comments.
+
+(* comments: "no comment invented" (the formatted comments are a subsequence of the source's)
+   together with "as many as before" is "exactly the same comments in the same order" *)
+Theorem no_comment_invented_and_none_lost : forall ys xs,
+  subseq xs ys = true -> List.length xs = List.length ys -> xs = ys.
+Proof. exact subseq_same_length. Qed.
+Print Assumptions no_comment_invented_and_none_lost.
+
+Theorem comment_normalisation_is_a_projection : forall k s, norm_cmt (k, norm_cmt (k, s)) = norm_cmt (k, s).
+Proof. exact norm_cmt_idem. Qed.
+Print Assumptions comment_normalisation_is_a_projection.
+
+(* ---- the lexical layer (Scanner.v: a model of scanner.go, characters -> tokens) ---- *)
+
+(* The model scanner inverts the rendering of any stream of lexically well-formed tokens (one
+   blank between tokens, one line break where a token starts a line): same kinds, texts and
+   line bits, no comment, no error.  Unbounded in the number and the length of the tokens.
+   [lexb]: identifiers, integers, one-unit durations, strings without their own delimiter,
+   operators and keywords; multi-unit durations (1h30m) are tied to scanner.go by the per-program
+   comparison only. *)
+Theorem scan_inverts_render : forall ts, forallb lexb ts = true ->
+  scan (str (render ts)) = (first_plain ts, [], true).
+Proof. exact scan_render_chars. Qed.
+Print Assumptions scan_inverts_render.
+
+(* characters -> tokens -> description: printing a well-formed description, rendering it as text,
+   scanning and parsing gives the description back *)
+Theorem text_roundtrip : forall a, wf a = true -> forallb lexb (print a) = true ->
+  exists ts, scan (str (render (print a))) = (ts, [], true) /\ parse ts = Some a.
+Proof. exact char_roundtrip. Qed.
+Print Assumptions text_roundtrip.
+
 (* ---- non-vacuity: a program using every construct of the language *)
 Definition ex_api : api :=
   [ SSyntax """v1""";
@@ -105,3 +177,33 @@ Proof. split; [vm_compute; discriminate|vm_compute; reflexivity]. Qed.
 Example ex_fmt_fixed_point :
   fmt (print ex_api) = Some (print (norm ex_api)) /\ fmt (print (norm ex_api)) = Some (print (norm ex_api)).
 Proof. vm_compute. split; reflexivity. Qed.
+
+(* the hypotheses of [checked_case_satisfies_property] are met by a concrete non-trivial case: what
+   a correct formatter returns for [ex_api], with two comments kept in place *)
+Definition ex_case : case :=
+  mkCase None None true (print ex_api) [(0, "// head"); (3, "// after syntax")] (Some ex_api) OOk OOk
+         (print (norm ex_api)) [(0, "// head"); (3, "// after   syntax ")] (Some (norm ex_api)) true true true [OErr; OOk].
+
+Example ex_case_checked : agrees ex_case = true /\ prop_ok ex_case = true.
+Proof. vm_compute. split; reflexivity. Qed.
+
+(* the lexical hypothesis of [text_roundtrip] holds of the example, and the text really is text *)
+Example ex_lex : forallb lexb (print ex_api) = true.
+Proof. vm_compute. reflexivity. Qed.
+
+Example ex_text_roundtrip :
+  match scan (str (render (print ex_api))) with
+  | (ts, cs, ok) => ok = true /\ cs = [] /\ parse ts = Some ex_api
+  end.
+Proof. vm_compute. repeat split; reflexivity. Qed.
+
+(* the scanner model on a text with comments, a raw string holding a line break (not counted by
+   scanner.go), a multi-unit duration and the "half closed" block comment of scanner.go *)
+Example ex_scan :
+  scan "a /* x*y / z */ 1h30m `p
+q` b // c
+d"
+  = ([tI "a"; tI "z"; tP KMul "*"; tP KQuo "/"; tP KDur "1h30m"; tP KRaw "`p
+q`"; tI "b"; tIn "d"],
+     [(1%nat, "/* x*y /"); (7%nat, "// c")], true).
+Proof. vm_compute. reflexivity. Qed.
